@@ -124,13 +124,22 @@ TBan ==
     /\ nban' = nban + 1
     /\ UNCHANGED <<tl, known, tip, base, garb, ever>>
 
+\* quiescence audit of the per-subnet in-flight RPC budget (read through syncer.VerifInflightSubnet while every
+\* peer is synced, nothing is announced and the scripted peers are gone): a counter is the number of RUNNING inbound
+\* handlers, always -- whatever mix of accepted, rejected-over-budget and erroring RPCs went before, it is 0 at rest
+TIdle ==
+    /\ Step("Idle")
+    /\ Ev.inflight = 0
+    /\ Ev.tip = tip
+    /\ UNCHANGED <<tl, known, tip, base, owed, nban, garb, ever>>
+
 TEnd ==
     /\ Step("End")
     /\ Ev.tip = tip
     /\ owed = 0
     /\ UNCHANGED <<tl, known, tip, base, owed, nban, garb, ever>>
 
-TraceNext == TTree \/ TNode \/ TAddBlocks \/ TAddValidated \/ TAddV2Pool \/ TBan \/ TEnd
+TraceNext == TTree \/ TNode \/ TAddBlocks \/ TAddValidated \/ TAddV2Pool \/ TBan \/ TIdle \/ TEnd
 
 TraceSpec == TraceInit /\ [][TraceNext]_tvars
 
